@@ -49,25 +49,33 @@ extern "C" {
 #[no_mangle]
 pub unsafe extern "C" fn verif_hash_many(inputs: *const *const u8, num_inputs: usize, blocks: usize, key: *const u32, counter: u64, inc: bool, flags: u8, fs: u8, fe: u8, out: *mut u8) {
     yield_point();
-    blake3_hash_many(inputs, num_inputs, blocks, key, counter, inc, flags, fs, fe, out)
+    blake3_hash_many(inputs, num_inputs, blocks, key, counter, inc, flags, fs, fe, out);
+    // ... and when the kernel has returned: what the caller does with the output is a separate step
+    yield_point();
 }
 
 #[no_mangle]
 pub unsafe extern "C" fn verif_compress_in_place(cv: *mut u32, block: *const u8, block_len: u8, counter: u64, flags: u8) {
     yield_point();
-    blake3_compress_in_place(cv, block, block_len, counter, flags)
+    blake3_compress_in_place(cv, block, block_len, counter, flags);
+    // ... and when the kernel has returned: what the caller does with the output is a separate step
+    yield_point();
 }
 
 #[no_mangle]
 pub unsafe extern "C" fn verif_compress_xof(cv: *const u32, block: *const u8, block_len: u8, counter: u64, flags: u8, out: *mut u8) {
     yield_point();
-    blake3_compress_xof(cv, block, block_len, counter, flags, out)
+    blake3_compress_xof(cv, block, block_len, counter, flags, out);
+    // ... and when the kernel has returned: what the caller does with the output is a separate step
+    yield_point();
 }
 
 #[no_mangle]
 pub unsafe extern "C" fn verif_xof_many(cv: *const u32, block: *const u8, block_len: u8, counter: u64, flags: u8, out: *mut u8, outblocks: usize) {
     yield_point();
-    blake3_xof_many(cv, block, block_len, counter, flags, out, outblocks)
+    blake3_xof_many(cv, block, block_len, counter, flags, out, outblocks);
+    // ... and when the kernel has returned: what the caller does with the output is a separate step
+    yield_point();
 }
 
 /// Hook H5: the feature cache's load and store are scheduling points.
@@ -255,7 +263,7 @@ pub fn c08(args: &Args, rep: &mut Report) {
                 for set in subsets(k, if k > 3 && !t { 1 } else if t { 3 } else { 2 }) {
                     let assign: HashMap<String, Mode> = nodes.iter().enumerate().map(|(i, n)| (n.clone(), if set.contains(&i) { Mode::Conc } else { Mode::LR })).collect();
                     let (s2, d2, e2, a2) = (s.clone(), data.clone(), exp.clone(), assign.clone());
-                    let n = explore(Some(if set.len() >= 3 { 2 } else { bound }), 20_000, move || {
+                    let n = crate::explore_iterative(if set.len() >= 3 { 2 } else { bound }, if t { None } else { Some(60) }, 20_000, move || {
                         ctl(|c| {
                             c.assign = a2.clone();
                             c.reset_run();
@@ -347,7 +355,13 @@ fn tsan_pass(rep: &mut Report) {
 // ------------------------------------------------------------------------------------------------
 // C18, C side
 
+fn c_sizes() -> (usize, usize, usize) {
+    // (seq 0 first update, seq 0 second update, seq 1 update)
+    if crate::rust_side::HEAVY.load(std::sync::atomic::Ordering::SeqCst) { (3000, 6000, 6000) } else { (1500, 2500, 3000) }
+}
+
 fn c_sequence(which: usize, data: &[u8]) -> Vec<u8> {
+    let (s0a, s0b, s1) = c_sizes();
     unsafe {
         let mut h: Hasher = std::mem::zeroed();
         let mut out = vec![0u8; 150];
@@ -364,13 +378,13 @@ fn c_sequence(which: usize, data: &[u8]) -> Vec<u8> {
             }
             0 => {
                 blake3_hasher_init(&mut h);
-                blake3_hasher_update(&mut h, data.as_ptr() as *const _, 3000);
-                blake3_hasher_update(&mut h, data[3000..].as_ptr() as *const _, 6000);
+                blake3_hasher_update(&mut h, data.as_ptr() as *const _, s0a);
+                blake3_hasher_update(&mut h, data[s0a..].as_ptr() as *const _, s0b);
                 blake3_hasher_finalize_seek(&h, 0, out.as_mut_ptr(), 150);
             }
             1 => {
                 blake3_hasher_init_keyed(&mut h, vcommon::TEST_KEY.as_ptr());
-                blake3_hasher_update(&mut h, data[100..].as_ptr() as *const _, 6000);
+                blake3_hasher_update(&mut h, data[100..].as_ptr() as *const _, s1);
                 blake3_hasher_finalize_seek(&h, 64 * (1u64 << 32) - 64, out.as_mut_ptr(), 150);
             }
             _ => {
@@ -385,17 +399,19 @@ fn c_sequence(which: usize, data: &[u8]) -> Vec<u8> {
 }
 
 fn c_spec(which: usize, data: &[u8]) -> Vec<u8> {
+    let (s0a, s0b, s1) = c_sizes();
     match which % 5 {
         3 => b3spec::xof(&b3spec::Mode::hash(), &data[..1025], 0, 150),
         4 => b3spec::xof(&b3spec::Mode::keyed(vcommon::TEST_KEY), &data[..100], 63, 150),
-        0 => b3spec::xof(&b3spec::Mode::hash(), &data[..9000], 0, 150),
-        1 => b3spec::xof(&b3spec::Mode::keyed(vcommon::TEST_KEY), &data[100..6100], 64 * (1u64 << 32) - 64, 150),
+        0 => b3spec::xof(&b3spec::Mode::hash(), &data[..s0a + s0b], 0, 150),
+        1 => b3spec::xof(&b3spec::Mode::keyed(vcommon::TEST_KEY), &data[100..100 + s1], 64 * (1u64 << 32) - 64, 150),
         _ => b3spec::xof(&b3spec::Mode::derive(b"vsched c context"), &data[7..7 + 17 * 1024 + 1], 1, 150),
     }
 }
 
 pub fn c18(args: &Args, rep: &mut Report) {
     let t = args.thorough();
+    crate::rust_side::HEAVY.store(t, std::sync::atomic::Ordering::SeqCst);
     let data = std::sync::Arc::new(vcommon::stream_b(args.seed ^ 0x18C, 80 * 1024));
     let solo: Vec<Vec<u8>> = (0..5).map(|w| c_spec(w, &data)).collect();
     let real = real_mask();
@@ -407,11 +423,11 @@ pub fn c18(args: &Args, rep: &mut Report) {
             record("c:solo:differs-from-spec", format!("C operation sequence {} alone differs from the spec", w), json!({"property": "C18", "engine": "sched/c", "sequence": w, "check": "c:solo:differs-from-spec"}));
         }
     }
-    let combos: Vec<Vec<usize>> = if t { vec![vec![0, 1], vec![1, 2], vec![0, 2], vec![1, 1], vec![3, 4, 2], vec![0, 1, 2], vec![2, 2, 1]] } else { vec![vec![0, 1], vec![1, 2], vec![1, 1], vec![3, 4], vec![3, 4, 2], vec![4, 4, 3]] };
+    let combos: Vec<Vec<usize>> = if t { vec![vec![0, 1], vec![1, 2], vec![0, 2], vec![1, 1], vec![4, 2], vec![3, 4, 2], vec![0, 1, 2], vec![2, 2, 1]] } else { vec![vec![0, 1], vec![1, 2], vec![1, 1], vec![3, 4], vec![4, 2], vec![3, 4, 0], vec![4, 4, 3]] };
     for combo in combos {
         let bound = if combo.len() == 3 { 2 } else if t { 3 } else { 2 };
         let (c2, d2, s2) = (combo.clone(), data.clone(), solo.clone());
-        let n = explore(Some(bound), 50_000, move || {
+        let n = crate::explore_iterative(bound, if t { None } else { Some(110) }, 50_000, move || {
             // every execution starts with an empty feature cache: detection itself races
             set_features(UNDEFINED);
             let mut hs = vec![];
